@@ -1,5 +1,165 @@
-//! stub
-use super::super::kernel::{Plan, RunRec};
-use super::Outcome;
-pub fn generate(_cx: &super::GenCtx) -> Vec<Plan> { vec![] }
-pub fn check(_plans: &[Plan], _recs: &[RunRec]) -> Outcome { Outcome::default() }
+//! C16 — fixed-depth search from a fresh cache is deterministic.
+//!
+//! One case = one (position, depth) searched under several environments that differ in
+//! everything the result must not depend on: machine speed, stalls, thread schedule,
+//! concurrent traffic on the input thread, what the process did before (an unrelated
+//! search, then the cache clear every run starts with). The search result (bestmove and
+//! every iteration's depth / seldepth / nodes / score / pv) must be identical in all.
+
+use super::super::gen;
+use super::super::json::J;
+use super::super::kernel::{Action, EndReason, Plan, Policy, RunRec};
+use super::super::rng::Rng;
+use super::super::session::history;
+use super::c14::parse_info;
+use super::{common_stats, go_views, Outcome, Violation};
+
+pub fn generate(cx: &super::GenCtx) -> Vec<Plan> {
+    let seed = cx.seed;
+    let mut rng = Rng::new(seed);
+    let spec = gen::random_posspec(&mut rng);
+    let d = if spec.dense {
+        *rng.pick(&[1u64, 2, 2, 3, 3, 3, 4])
+    } else {
+        rng.range(1, 5)
+    };
+    let envs = if cx.thorough { 12 } else { 8 };
+    let mut plans = vec![];
+    for e in 0..envs {
+        // noise: an unrelated search before some environments (its result is ignored)
+        if e > 0 && rng.chance(1, 3) {
+            let other = gen::random_posspec(&mut rng);
+            let mut p = Plan::new("C16", seed);
+            p.script = vec![
+                Action::send(other.cmd.clone()),
+                Action::send(format!("go depth {} nodes {}", rng.range(1, 3), rng.range(50, 3000))),
+                Action::WaitBestmove,
+                Action::WaitIdle,
+                Action::send("quit"),
+            ];
+            p.policy = Some(Policy::Quiet);
+            p.params = J::obj().set("noise", true);
+            plans.push(p);
+        }
+        let mut p = Plan::new("C16", seed);
+        let mut s = vec![];
+        if rng.chance(1, 4) {
+            s.push(Action::send("ucinewgame"));
+        }
+        if rng.chance(1, 4) {
+            s.push(Action::send("isready"));
+        }
+        s.push(Action::send(spec.cmd.clone()));
+        s.push(Action::send(format!("go depth {d}")));
+        if e > 0 && rng.chance(1, 2) {
+            // traffic on the input thread while the search runs
+            for _ in 0..rng.range(1, 3) {
+                s.push(Action::DelaySteps(rng.below(3000)));
+                match rng.below(3) {
+                    0 => s.push(Action::send("isready")),
+                    1 => s.push(Action::send("position startpos moves e2e4 e7e5")),
+                    _ => s.push(Action::send("setoption name Hash value 1")),
+                }
+            }
+        }
+        s.push(Action::WaitBestmove);
+        s.push(Action::WaitIdle);
+        s.push(Action::send("quit"));
+        if e > 0 {
+            gen::decorate_all(&mut s, &mut rng, 1);
+        }
+        p.script = s;
+        p.step_cap = 20_000_000;
+        p.tick_cap = 60_000_000;
+        if e == 0 {
+            p.cost_ns = 1000;
+            p.policy = Some(Policy::Quiet);
+        } else {
+            gen::machine(&mut p, &mut rng, 50_000, true);
+            gen::schedule(&mut p, &mut rng, 20_000);
+        }
+        p.params = J::obj().set("noise", false).set("depth", d);
+        plans.push(p);
+    }
+    plans
+}
+
+/// The part of a search's output that must not depend on the environment.
+pub fn result_digest(infos: &[String], bestmove: Option<&str>) -> String {
+    let mut parts = vec![];
+    for i in infos {
+        match parse_info(i) {
+            Ok(p) => parts.push(format!(
+                "d{} sd{:?} n{} cp{:?} m{:?} pv[{}]",
+                p.depth,
+                p.seldepth,
+                p.nodes,
+                p.cp,
+                p.mate,
+                p.pv.join(" ")
+            )),
+            Err(_) => parts.push(format!("raw:{i}")),
+        }
+    }
+    parts.push(format!("best:{}", bestmove.unwrap_or("<none>")));
+    parts.join(" | ")
+}
+
+pub fn check(plans: &[Plan], recs: &[RunRec]) -> Outcome {
+    let mut out = Outcome::default();
+    let mut digests: Vec<(usize, String)> = vec![];
+    let mut capped = false;
+    for (pi, (plan, rec)) in plans.iter().zip(recs).enumerate() {
+        common_stats(plan, rec, &mut out.stats);
+        if plan.params.b("noise") {
+            out.stats.inc("noise_runs");
+            continue;
+        }
+        if matches!(rec.end, EndReason::StepCap | EndReason::TickCap) {
+            capped = true;
+            continue;
+        }
+        let h = history(rec);
+        let views = go_views(&h);
+        let Some(v) = views.iter().find(|v| v.go.tid.is_some()) else { continue };
+        let infos: Vec<String> = v.go.infos.iter().map(|i| i.text.clone()).collect();
+        let best = v.go.bestmoves.first().map(|b| b.text.as_str());
+        if best.is_none() && !v.go.thread_ended {
+            capped = true;
+            continue;
+        }
+        digests.push((pi, result_digest(&infos, best)));
+        out.stats.inc("environments");
+        out.stats.add("search_nodes_compared", infos.iter().filter_map(|i| parse_info(i).ok()).map(|p| p.nodes).max().unwrap_or(0));
+        if h.lines.iter().any(|l| l.clock > v.deliver_clock && l.text != "quit") {
+            out.stats.inc("reach.input_traffic_during_search");
+        }
+        if rec.stalls_fired > 0 {
+            out.stats.inc("reach.stall_during_run");
+        }
+    }
+    if capped {
+        out.stats.inc("inconclusive.cap");
+    }
+    if let Some((p0, d0)) = digests.first() {
+        for (pi, d) in &digests[1..] {
+            if d != d0 {
+                // first point of difference
+                let a: Vec<&str> = d0.split(" | ").collect();
+                let b: Vec<&str> = d.split(" | ").collect();
+                let k = a.iter().zip(&b).position(|(x, y)| x != y).unwrap_or(a.len().min(b.len()));
+                out.violations.push(Violation::new(
+                    "result_differs_between_environments",
+                    format!(
+                        "same position and depth, fresh cache: environment (plan {p0}) gave {:?}, environment (plan {pi}) gave {:?}",
+                        a.get(k).unwrap_or(&"<end>"),
+                        b.get(k).unwrap_or(&"<end>")
+                    ),
+                ));
+                break;
+            }
+        }
+    }
+    out.nontrivial = digests.len() >= 2;
+    out
+}
